@@ -47,6 +47,18 @@ static void sc_isolate() {
         in.wait(); tl_scope = 0; waitret(2, {10, 11, 12}); });
     out.wait(); waitret(1, {1, 2, 3});
 }
+static int g_e_begun;
+static void sc_isolate2() {   // an enqueued task with nested parallelism is submitted and runs while thread 0 waits inside an isolated scope: its children carry no tag and
+    // must not be executed by the isolated waiter, whichever way (steal, mailbox, FIFO stream) the thread that runs them obtained its previous task
+    tbb::task_group out; g_e_begun = 0;
+    tbb::this_task_arena::isolate([&] { tl_scope = 7; tbb::task_group in;
+        for (int k = 0; k < 2; k++) { int u = 10 + k; submit(u, 2, 7); in.run(Unit{u, [] { for (long i = 0; i < 20000 && !__atomic_load_n(&g_e_begun, __ATOMIC_SEQ_CST); i++) cosched::yield_point(); for (int i = 0; i < 4; i++) cosched::yield_point(); }}); }
+        submit(1, 1, 0); cur_arena->enqueue(out.defer(Unit{1, [] { __atomic_store_n(&g_e_begun, 1, __ATOMIC_SEQ_CST); tbb::task_group nested;
+            for (int k = 0; k < 4; k++) { int u = 20 + k; submit(u, 3, 0); nested.run(Unit{u, [] { for (int i = 0; i < 3; i++) cosched::yield_point(); }}); }
+            nested.wait(); TR.emit("{\"e\":\"WaitRet\",\"g\":3,\"seen\":%d}", g_written[20] + g_written[21] + g_written[22] + g_written[23]); }}));
+        in.wait(); tl_scope = 0; waitret(2, {10, 11}); });
+    out.wait(); waitret(1, {1});
+}
 static std::atomic<void*> g_sp[4];
 static void sc_suspend(int variant) {
     tbb::task_group tg; for (auto& x : g_sp) x.store(nullptr);
@@ -79,10 +91,10 @@ int main(int argc, char** argv) {
     if (argc < 6) return 2;
     TR.open(argv[1]); std::string sc = argv[2]; int nseeds = atoi(argv[3]); unsigned long seed0 = strtoul(argv[4], nullptr, 10); int N = atoi(argv[5]);
     long paths = 0, steps = 0, stuck = 0; vh::Timer tm; static const int dens[8] = {1, 3, 10, 40, -1, -2, -3, -5};
-    std::vector<std::pair<std::string, std::function<void()>>> all = {{"nested", sc_nested}, {"fanout", sc_fanout}, {"enqueue", sc_enqueue}, {"isolate", sc_isolate},
+    std::vector<std::pair<std::string, std::function<void()>>> all = {{"nested", sc_nested}, {"fanout", sc_fanout}, {"enqueue", sc_enqueue}, {"isolate", sc_isolate}, {"isolate2", sc_isolate2},
         {"suspend0", [] { sc_suspend(0); }}, {"suspend1", [] { sc_suspend(1); }}, {"suspend2", sc_suspend2}, {"suspendF", sc_suspendF}};
     for (int s = 0; s < nseeds; s++) for (auto& kv : all) {
-        if (stuck >= 10) break; if (sc != "all" && sc != kv.first && !(sc == "c01" && kv.first.find("suspend") == std::string::npos && kv.first != "isolate") && !(sc == "c20" && kv.first.find("suspend") == 0)) continue;
+        if (stuck >= 10) break; if (sc != "all" && sc != kv.first && !(sc == "c01" && kv.first.find("suspend") == std::string::npos && kv.first.find("isolate") != 0) && !(sc == "c20" && kv.first.find("suspend") == 0)) continue;
         if (N == 1 && (kv.first == "suspend0" || kv.first == "suspend2")) continue;   // a task that spin-waits for another task needs a second thread
         TR.begin_exec(); memset(g_written, 0, sizeof g_written); for (auto& x : g_sp) vh::rawstore(x, (void*)nullptr);
         TR.emit("{\"e\":\"Scenario\",\"name\":\"%s\",\"threads\":%d}", kv.first.c_str(), N);
